@@ -401,6 +401,14 @@ func genC03(r *Rng, e *Emitter, n int) {
 			l = []geom.Layout{geom.NoLayout, 5, 6}[r.Intn(3)]
 		}
 		t := r.wkbTree(3, l)
+		if r.chance(1, 40) && l.Stride() > 0 {
+			// collections nested far deeper than anything hand-written: hundreds of levels around one member
+			d := []int{64, 100, 101, 128, 199, 200, 201, 202, 256, 300, 513, 1000}[r.Intn(12)] + r.Intn(3)
+			for ; d > 0; d-- {
+				t = &gtree{kind: "gc", layout: geom.NoLayout, srid: r.wkbSRID(), members: []*gtree{t}}
+			}
+			e.tally("deep-chain")
+		}
 		c := codecs[r.Intn(len(codecs))]
 		ndr := r.Intn(2)
 		var bo binary.ByteOrder = wkb.XDR
